@@ -54,7 +54,7 @@ class World:
                                                                          "urn:ietf:params:oauth:grant-type:device_code"],
                            ["code"], "client_secret_basic"),
         }
-        st.clients["pub"] = S.Client("pub", "", ["https://pub.example/cb"], "a b", ["implicit"], ["token"], "none")
+        st.clients["pub"] = S.Client("pub", "", ["https://pub.example/cb"], "a b", ["implicit", "authorization_code", "refresh_token"], ["token", "code"], "none")
         users = {"alice": "pw"}
         srv = self.srv = S.Server(st)
         gs = S.make_grants(st, users)
@@ -160,6 +160,8 @@ class World:
     # ------------------------------------------------------------------ helpers
     def _creds(self, req):
         cid = req.get("client", "c1")
+        if cid == "pub" and not req.get("bad_secret"):
+            return {}                  # a public client authenticates with method none: its id travels in the form
         secret = {"c1": "s1", "c2": "s2"}.get(cid, "zz")
         if req.get("bad_secret"):
             secret = "wrong"
@@ -195,6 +197,8 @@ class World:
         return ["error", params.get("error", "?")]
 
     def _token(self, form, req):
+        if req.get("client") == "pub":
+            form = dict(form, client_id="pub")
         r = S.HReq("POST", TOKEN_URI, form, self._creds(req))
         return self._token_out(self.srv.create_token_response(r))
 
